@@ -960,8 +960,8 @@ class SgzReader(object):
         header : dict
             A single header as a dictionary of headerword-value pairs
         """
-        if self.is_3d and not 0 <= index < self.n_ilines * self.n_xlines:
-            raise IndexError(self.range_error.format(index, 0, self.tracecount))
+        if not 0 <= index < self.tracecount:
+            raise IndexError(self.range_error.format(index, 0, self.tracecount - 1))
 
         header = self.segy_traceheader_template.copy()
         values_read = {}
